@@ -60,6 +60,7 @@ type c20Source struct {
 	contactGroups  int
 	blockedContact bool
 	forkedLog      bool
+	olderFiles     []c20File // an export taken earlier in the same history
 }
 
 func c20SortedCIDs(cs []cid.Cid) []string {
@@ -116,7 +117,21 @@ func c20BuildSource(t *testing.T, rt *rapid.T) *c20Source {
 	}
 	targets := append([][]byte{accPK}, gpks...)
 	nops := rapid.IntRange(1, 10).Draw(rt, "ops")
+	olderAt := rapid.IntRange(0, nops-1).Draw(rt, "older-export-at")
 	for i := 0; i < nops; i++ {
+		if i == olderAt {
+			// an earlier backup of the same account (the history goes on afterwards)
+			vWaitQuiet(func() int {
+				n := 0
+				svc.lock.RLock()
+				for _, gc := range svc.openedGroups {
+					n += gc.metadataStore.OpLog().Len() + gc.messageStore.OpLog().Len()
+				}
+				svc.lock.RUnlock()
+				return n
+			}, 300*time.Millisecond, 10*time.Second)
+			src.olderFiles = c20Export(rt, svc)
+		}
 		tgt := targets[rapid.IntRange(0, len(targets)-1).Draw(rt, "tgt")]
 		var name string
 		var req proto.Message
@@ -268,6 +283,30 @@ func c20BuildSource(t *testing.T, rt *rapid.T) *c20Source {
 		src.files = append(src.files, c20File{h.Name, b})
 	}
 	return src
+}
+
+// c20Export runs the export RPC and parses the archive
+func c20Export(rt *rapid.T, svc *service) []c20File {
+	var buf bytes.Buffer
+	ctx, cancel := context.WithTimeout(vCtx, 60*time.Second)
+	defer cancel()
+	if err := svc.ServiceExportData(&protocoltypes.ServiceExportData_Request{}, &c20ExportStream{ctx: ctx, buf: &buf}); err != nil {
+		rt.Fatalf("harness: export failed: %v", err)
+	}
+	var files []c20File
+	tr := tar.NewReader(bytes.NewReader(buf.Bytes()))
+	for {
+		h, err := tr.Next()
+		if err == io.EOF {
+			break
+		}
+		if err != nil {
+			rt.Fatalf("harness: the export is not a tar archive: %v", err)
+		}
+		b, _ := io.ReadAll(tr)
+		files = append(files, c20File{h.Name, b})
+	}
+	return files
 }
 
 type c20ExportStream struct {
@@ -593,7 +632,7 @@ func TestVerif_C20_Mutants(t *testing.T) {
 			}
 		}
 		kinds := []string{"entry-byte-flip", "entry-under-other-name", "key-dropped", "proof-key-dropped", "key-duplicated", "existing-account", "existing-account/account-key-only", "existing-account/member-of-a-group-only", "heads-byte-flip", "key-byte-flip",
-			"entry-dropped", "reordered-keys-last", "reordered-heads-first", "truncated-tar", "entry-trailing-garbage", "heads-file-duplicated"}
+			"entry-dropped", "reordered-keys-last", "reordered-heads-first", "truncated-tar", "entry-trailing-garbage", "heads-file-duplicated", "older-backup-refused-then-this-one"}
 		// every mutation kind once per exported history
 		for _, kind := range kinds {
 			files := make([]c20File, len(src.files))
@@ -681,6 +720,52 @@ func TestVerif_C20_Mutants(t *testing.T) {
 					}
 				}
 				files = append(rest, keys...)
+			case "older-backup-refused-then-this-one":
+				// an earlier export of the account without its proof key file is refused (after its entries and heads were
+				// read); the current export restored into the same node afterwards must give the current logs
+				if len(src.olderFiles) == 0 {
+					continue
+				}
+				var older []c20File
+				for _, f := range src.olderFiles {
+					if f.Name != exportAccountProofKeyFilename {
+						older = append(older, f)
+					}
+				}
+				tgt := c20NewTarget(t, "")
+				err1, to1, pan1 := tgt.restore(c20Tar(older), 20*time.Second)
+				if pan1 != nil {
+					tgt.close()
+					acct.Violation("restore-panic/"+kind, "TestVerif_C20_Mutants", map[string]any{"mutant": kind, "history": src.trace, "msg": fmt.Sprint(pan1)})
+					rt.Fatalf("C20 restore-panic: %v", pan1)
+				}
+				if err1 == nil && !to1 {
+					tgt.close()
+					acct.Violation("bad-archive-accepted/proof-key-dropped", "TestVerif_C20_Mutants", map[string]any{"mutant": kind, "history": src.trace})
+					rt.Fatalf("C20: an archive without the proof key file was restored")
+				}
+				err2, to2, pan2 := tgt.restore(c20Tar(src.files), 120*time.Second)
+				id, msg := "", ""
+				switch {
+				case pan2 != nil:
+					id, msg = "restore-panic/after-refused-older-backup", fmt.Sprint(pan2)
+				case err2 != nil || to2:
+					id, msg = "rejected-archive-left-residue/older-backup", fmt.Sprintf("after an older backup without its proof key was refused, the current export does not restore into the same node: %v (timed out=%v)", err2, to2)
+				default:
+					id, msg = tgt.compare(t, src)
+					if id != "" {
+						id, msg = "rejected-archive-left-residue/older-backup/"+id, "after a refused older backup the current export restores to other logs: "+msg
+					}
+				}
+				tgt.close()
+				if id != "" {
+					acct.Violation(id, "TestVerif_C20_Mutants", map[string]any{"mutant": kind, "history": src.trace, "msg": msg})
+					rt.Fatalf("C20 %s: %s", id, msg)
+				}
+				acct.Case(true, fmt.Sprintf("%s|%d|%v", kind, len(src.files), src.trace), func() any {
+					return map[string]any{"kind": "archive-mutant", "mutant": kind}
+				}, "mutant", "mutant/"+kind)
+				continue
 			case "heads-file-duplicated":
 				if len(headIdx) == 0 {
 					continue
